@@ -16,6 +16,7 @@ import (
 
 	"github.com/consensys/gnark-crypto/accumulator/merkletree"
 	_ "github.com/consensys/gnark-crypto/ecc/bn254/fr/poseidon2"
+	frbls12381 "github.com/consensys/gnark-crypto/ecc/bls12-381/fr"
 	"github.com/consensys/gnark-crypto/field/koalabear"
 	kbposeidon2 "github.com/consensys/gnark-crypto/field/koalabear/poseidon2"
 	"github.com/consensys/gnark-crypto/field/koalabear/vortex"
@@ -32,6 +33,9 @@ type hspec struct {
 	// varLen: the leaves have different lengths below the block size of the hasher (lengths 8, 7, ..., 3, 8, ...): a
 	// hasher that pads short writes must not remember anything of the previous, longer one
 	varLen bool
+	// modulus of the field a field hasher works over (nil: byte-oriented hasher): value + modulus is the other byte
+	// string with the same residue
+	modulus *big.Int
 }
 
 func (hs hspec) leafAt(k int) []byte {
@@ -43,13 +47,15 @@ func (hs hspec) leafAt(k int) []byte {
 
 func hspecs() []hspec {
 	return []hspec{
-		{"sha256", sha256.New, 4, false},
-		{"mimc_bn254", func() hash.Hash { return gchash.MIMC_BN254.New() }, 32, false},
-		{"poseidon2_bn254", func() hash.Hash { return gchash.POSEIDON2_BN254.New() }, 32, false},
+		{"sha256", sha256.New, 4, false, nil},
+		{"mimc_bn254", func() hash.Hash { return gchash.MIMC_BN254.New() }, 32, false, frbn254.Modulus()},
+		{"poseidon2_bn254", func() hash.Hash { return gchash.POSEIDON2_BN254.New() }, 32, false, frbn254.Modulus()},
 		// leaves that are not a whole number of blocks (one block + 8 bytes: the tail is left-padded to a block)
-		{"poseidon2_bn254_leaf40", func() hash.Hash { return gchash.POSEIDON2_BN254.New() }, 40, false},
+		{"poseidon2_bn254_leaf40", func() hash.Hash { return gchash.POSEIDON2_BN254.New() }, 40, false, nil},
 		// leaves shorter than a block, of decreasing lengths (MiMC left-pads a short write to one block)
-		{"mimc_bn254_short_leaves", func() hash.Hash { return gchash.MIMC_BN254.New() }, 8, true},
+		{"mimc_bn254_short_leaves", func() hash.Hash { return gchash.MIMC_BN254.New() }, 8, true, nil},
+		// the MiMC of another curve (every curve has its own copy of the hasher)
+		{"mimc_bls12_381", func() hash.Hash { return gchash.MIMC_BLS12_381.New() }, 32, false, frbls12381.Modulus()},
 	}
 }
 
@@ -244,8 +250,26 @@ func accAll(r *vlib.Run, g string, hs hspec, n int) {
 			r.FailIn(g, "acc/"+hs.name+"/proof-differs-from-model", id, fmt.Sprintf("proof len %d want %d idx %d num %d", len(proof), len(wantProof), idx, num), nil)
 			continue
 		}
+		// every verification runs twice: with a fresh hasher, and with ONE hasher the verifier keeps for the whole sequence
+		// (whatever an earlier, possibly refused or aborted, verification left in it must not matter); after each tampered
+		// proof the honest one must still verify with that same hasher
+		kept := hs.mk()
+		var honestRoot []byte
+		var honestProof [][]byte
 		verify := func(root []byte, p [][]byte, j, nn uint64) (res bool, pan string) {
 			pan = vlib.Guard(func() { res = merkletree.VerifyProof(hs.mk(), root, p, j, nn) })
+			var res2 bool
+			pan2 := vlib.Guard(func() { res2 = merkletree.VerifyProof(kept, cp(root), cpSet(p), j, nn) })
+			if res2 != res || (pan2 == "") != (pan == "") {
+				r.FailIn(g, "acc/"+hs.name+"/verdict-depends-on-the-hasher-history", id, fmt.Sprintf("VerifyProof with a hasher kept from earlier verifications: %v %q, with a fresh hasher: %v %q (n=%d i=%d j=%d)", res2, pan2, res, pan, n, i, j), nil)
+			}
+			if honestProof != nil {
+				var res3 bool
+				pan3 := vlib.Guard(func() { res3 = merkletree.VerifyProof(kept, cp(honestRoot), cpSet(honestProof), uint64(i), uint64(n)) })
+				if !res3 || pan3 != "" {
+					r.FailIn(g, "acc/"+hs.name+"/honest-proof-rejected-after-another-verification", id, fmt.Sprintf("the honest proof is refused by a hasher that has just been used for another (possibly refused) verification: %v %q", res3, pan3), nil)
+				}
+			}
 			return
 		}
 		r.Add(1)
@@ -253,6 +277,7 @@ func accAll(r *vlib.Run, g string, hs hspec, n int) {
 			r.FailIn(g, "acc/"+hs.name+"/honest-proof-rejected", id, "VerifyProof false/panic on honest proof: "+pan, nil)
 			continue
 		}
+		honestRoot, honestProof = cp(root), cpSet(proof)
 		tam := func(class string, root []byte, p [][]byte, j uint64) {
 			r.Add(1)
 			r.Tag(fmt.Sprintf("acc/%s/%s/len%d", hs.name, class, len(proof)))
@@ -272,9 +297,9 @@ func accAll(r *vlib.Run, g string, hs hspec, n int) {
 		for k := range proof {
 			// field hashers: the other 32-byte string with the same residue (value + q). The hasher must not treat it as the
 			// original (the library turns a refusing hasher into a panic: refusing by panic is not an acceptance)
-			if hs.leafSize == 32 && len(proof[k]) == 32 {
+			if hs.modulus != nil && hs.leafSize == 32 && len(proof[k]) == 32 {
 				v := new(big.Int).SetBytes(proof[k])
-				v.Add(v, frbn254.Modulus())
+				v.Add(v, hs.modulus)
 				if v.BitLen() <= 256 {
 					p := cpSet(proof)
 					v.FillBytes(p[k])
